@@ -356,6 +356,8 @@ entity U in [G] {
   d: decimal, ip: ipaddr, dt: datetime, du: duration, e: G, n: Long, str: String,
   s: Set<decimal>, es: Set<G>, r: { d: decimal, e: G, rs: Set<ipaddr> }, opt?: datetime
 } tags decimal;
+entity T tags ipaddr;
+entity TE tags G;
 action view appliesTo { principal: U, resource: G };
 `
 
@@ -406,7 +408,7 @@ func spellingFamily() *core.Family {
 	// 11 spelling slots in one entity document; each slot has 2 (entity) or 3 (extension) spellings.
 	// All combinations with at most 2 slots deviating from the explicit spelling + the all-implicit / all-bare ones.
 	type slot struct{ n int }
-	slots := []int{3, 3, 3, 3, 2, 3, 2, 3, 2, 3, 2, 2, 3, 3} // d ip dt du e s[0] es[0] r.d r.e r.rs[0] uid parent tag s[1]
+	slots := []int{3, 3, 3, 3, 2, 3, 2, 3, 2, 3, 2, 2, 3, 3, 3, 2} // d ip dt du e s[0] es[0] r.d r.e r.rs[0] uid parent tag s[1] T.tag TE.tag (entities without attributes)
 	var combos [][]int
 	base := make([]int, len(slots))
 	combos = append(combos, append([]int{}, base...))
@@ -430,16 +432,17 @@ func spellingFamily() *core.Family {
 	}
 	combos = append(combos, all2)
 	doc := func(c []int) string {
-		return fmt.Sprintf(`[{"uid":%s,"parents":[%s],"attrs":{"d":%s,"ip":%s,"dt":%s,"du":%s,"e":%s,"n":1,"str":"x","s":[%s,%s],"es":[%s],"r":{"d":%s,"e":%s,"rs":[%s]}},"tags":{"t":%s}},{"uid":{"type":"G","id":"g1"},"parents":[],"attrs":{},"tags":{}}]`,
+		return fmt.Sprintf(`[{"uid":%s,"parents":[%s],"attrs":{"d":%s,"ip":%s,"dt":%s,"du":%s,"e":%s,"n":1,"str":"x","s":[%s,%s],"es":[%s],"r":{"d":%s,"e":%s,"rs":[%s]}},"tags":{"t":%s}},{"uid":{"type":"G","id":"g1"},"parents":[],"attrs":{},"tags":{}},{"uid":{"type":"T","id":"t1"},"parents":[],"attrs":{},"tags":{"k":%s}},{"uid":{"type":"TE","id":"te1"},"parents":[],"attrs":{},"tags":{"k":%s}}]`,
 			spellEntity(c[10], "U", "alice"), spellEntity(c[11], "G", "g1"),
 			spellExt(c[0], "decimal", "1.5"), spellExt(c[1], "ip", "10.0.0.0/8"), spellExt(c[2], "datetime", "2024-01-01T00:00:00.000Z"), spellExt(c[3], "duration", "1h"),
 			spellEntity(c[4], "G", "g1"), spellExt(c[5], "decimal", "2.5"), spellExt(c[13], "decimal", "3.5"), spellEntity(c[6], "G", "g1"),
-			spellExt(c[7], "decimal", "-0.0001"), spellEntity(c[8], "G", "g1"), spellExt(c[9], "ip", "::1"), spellExt(c[12], "decimal", "9.0"))
+			spellExt(c[7], "decimal", "-0.0001"), spellEntity(c[8], "G", "g1"), spellExt(c[9], "ip", "::1"), spellExt(c[12], "decimal", "9.0"),
+			spellExt(c[14], "ip", "192.168.0.1"), spellEntity(c[15], "G", "g1"))
 	}
 	var want exptypes.EntityMap
 	return &core.Family{
 		Name:   "spellings-with-schema",
-		Desc:   fmt.Sprintf("one entity document with 14 spelling slots (uid, parent, 4 extension attributes, entity attribute, set members, nested record members, tag): every combination with <=2 slots deviating from the explicit __entity/__extn escapes to the implicit {type,id} / {fn,arg} / bare-string forms, plus all-implicit/bare (%d documents): UnmarshalJSONWithSchema decodes all of them to equal entity maps", len(combos)),
+		Desc:   fmt.Sprintf("one entity document with 16 spelling slots (uid, parent, 4 extension attributes, entity attribute, set members, nested record members, tag, extension- and entity-typed tags of entities without attributes): every combination with <=2 slots deviating from the explicit __entity/__extn escapes to the implicit {type,id} / {fn,arg} / bare-string forms, plus all-implicit/bare (%d documents): UnmarshalJSONWithSchema decodes all of them to equal entity maps", len(combos)),
 		N:      int64(len(combos)),
 		Serial: true,
 		Run: func(t *core.T, i int64) {
@@ -495,7 +498,7 @@ func spellingFamily() *core.Family {
 }
 
 func diffSlots(c []int) string {
-	names := []string{"d", "ip", "dt", "du", "e", "s[0]", "es[0]", "r.d", "r.e", "r.rs[0]", "uid", "parent", "tag", "s[1]"}
+	names := []string{"d", "ip", "dt", "du", "e", "s[0]", "es[0]", "r.d", "r.e", "r.rs[0]", "uid", "parent", "tag", "s[1]", "T.tag(no attrs)", "TE.tag(no attrs)"}
 	var out []string
 	for i, k := range c {
 		if k > 0 {
